@@ -23,5 +23,7 @@ CONSTANTS
   UseEpochs = FALSE
   OccSet = {FALSE}
   MinCleanSegs = 3
+  UseRevReaders = FALSE
+  UseFaults = TRUE
   UseReaders = FALSE
 CHECK_DEADLOCK FALSE
